@@ -21,6 +21,18 @@ CLAIMED = {
  "C09": ("held on N executions: every produced satisfaction was measured (bytes, elements, weight, executed opcodes and stack depth from the VM trace) and compared with the declared static figures",
          "trusted base: refvm trace (opcode counting as in Bitcoin Core); known finding: Plan::witness_size omits the witness script for wsh (pinned by repository tests)",
          "runtime monitoring: conservation-style inequalities (measured <= declared) checked on VM traces of real satisfactions"),
+ "C04": ("held on N executions: encode/decode round trips of generated fragments in all four contexts and every byte string the decoder accepted re-encoded to exactly the input; bounded by fragment size and by the mutation operators listed in the evidence",
+         "trusted base: refvm::script parser for push minimality; structural identity is not demanded (several miniscripts share a script)",
+         "runtime monitoring: differential round-trip monitor over generated and mutated inputs"),
+ "C13": ("held on N executions: interpreter verdicts and reported constraints compared with an independent Script VM on library satisfactions, 1-3-step witness mutations and re-signed lock-time worlds",
+         "trusted base: refvm (consensus flags) and its trace; tx version 2 only",
+         "runtime monitoring: reference-model monitor (interpreter accept => VM accept; constraint multiset == VM trace)"),
+ "C18": ("held on N executions: every transformation compared with full truth tables over <= 8-10 atoms and with path enumeration",
+         "trusted base: pol.rs evaluator and independent policy text parser; atoms are independent propositional variables",
+         "runtime monitoring: differential execution against a truth-table model"),
+ "C19": ("held on N pairs/triples incl. targeted mutation pairs: equality, order and hash laws against canonical-string identity",
+         "trusted base: Display output as structural identity",
+         "runtime monitoring: algebraic-law monitor over generated and mutated object pairs"),
 }
 REASON_PENDING = "check not built yet in this round (runtime-monitoring design in DESIGN.md section 6); will be claimed when its monitor lands"
 
